@@ -10,10 +10,14 @@ static YR_MEMORY_BLOCK blocks[2]; static int pos;
 static const uint8_t* fetch(YR_MEMORY_BLOCK* b) { return (const uint8_t*) b->context; }
 static YR_MEMORY_BLOCK* first(YR_MEMORY_BLOCK_ITERATOR* it) { pos = 0; it->last_error = ERROR_SUCCESS; return &blocks[0]; }
 static YR_MEMORY_BLOCK* next(YR_MEMORY_BLOCK_ITERATOR* it) { pos++; it->last_error = ERROR_SUCCESS; return pos < 2 ? &blocks[pos] : NULL; }
-static int m4, m5;
+static int m4, m5, c4, c5;
 static int cb(YR_SCAN_CONTEXT* c, int msg, void* d, void* u)
 {
-  if (msg == CALLBACK_MSG_RULE_MATCHING) { if (!strcmp(((YR_RULE*) d)->identifier, "at4")) m4 = 1; else m5 = 1; }
+  if (msg == CALLBACK_MSG_RULE_MATCHING)
+  {
+    const char* id = ((YR_RULE*) d)->identifier;
+    if (!strcmp(id, "at4")) m4 = 1; else if (!strcmp(id, "at5")) m5 = 1; else if (!strcmp(id, "cnt4")) c4 = 1; else c5 = 1;
+  }
   return CALLBACK_CONTINUE;
 }
 int main(void)
@@ -21,7 +25,10 @@ int main(void)
   YR_COMPILER* comp; YR_RULES* rules; YR_MEMORY_BLOCK_ITERATOR it;
   yr_initialize(); yr_compiler_create(&comp);
   if (yr_compiler_add_string(comp,
-      "import \"hash\"\n"
+      "import \"hash\"\nimport \"math\"\n"
+      /* the same loop shape in math.c get_distribution: math.count(byte, 4, 0) is undefined, (byte, 5, 0) is 0 */
+      "rule cnt4 { condition: math.count(0x61, 4, 0) == 0 }\n"
+      "rule cnt5 { condition: math.count(0x61, 5, 0) == 0 }\n"
       "rule at4 { condition: hash.md5(4, 0) == \"d41d8cd98f00b204e9800998ecf8427e\" }\n"
       "rule at5 { condition: hash.md5(5, 0) == \"d41d8cd98f00b204e9800998ecf8427e\" }\n", NULL) != 0) return 2;
   yr_compiler_get_rules(comp, &rules);
@@ -30,5 +37,7 @@ int main(void)
   it.first = first; it.next = next; it.file_size = NULL; it.last_error = ERROR_SUCCESS;
   yr_rules_scan_mem_blocks(rules, &it, 0, cb, NULL, 0);
   printf("md5(4,0)==md5(\"\"): %d   md5(5,0)==md5(\"\"): %d\n", m4, m5);
+  printf("math.count(0x61,4,0)==0: %d   math.count(0x61,5,0)==0: %d\n", c4, c5);
+  if (c5 == 1 && c4 != 1) return 1;
   return (m5 == 1 && m4 == 1) ? 0 : (m5 == 1 ? 1 : 2);
 }
